@@ -14,11 +14,11 @@ _counter = itertools.count()
 
 def fresh(prefix, sort=None):
     name = "%s!%d" % (prefix, next(_counter))
-    if sort is None or sort == "int":
+    if sort is None or (isinstance(sort, str) and sort == "int"):
         return z3.Int(name)
-    if sort == "real":
+    if isinstance(sort, str) and sort == "real":
         return z3.Real(name)
-    if sort == "bool":
+    if isinstance(sort, str) and sort == "bool":
         return z3.Bool(name)
     return z3.Const(name, sort)
 
@@ -107,6 +107,8 @@ def B(x):
         return z3.BoolVal(x != 0)
     if z3.is_bool(x):
         return x
+    if is_z3(x) and z3.is_fp(x):
+        return z3.Not(z3.fpIsZero(x))
     if is_z3(x):
         return x != 0
     raise Unsupported("truthiness of %r" % (x,))
@@ -185,11 +187,15 @@ def _arith(op, a, b):
 
 
 def arith(op, a, b):
+    if is_fp(a) or is_fp(b):
+        return fp_arith(op, a, b)
     nan = or_nan(nan_of(a), nan_of(b))
     return mk(_arith(op, val_of(a), val_of(b)), nan)
 
 
 def neg(a):
+    if is_fp(a):
+        return z3.fpNeg(a)
     v = val_of(a)
     if not is_z3(v):
         return mk(-pyfloat(v), nan_of(a))
@@ -197,6 +203,8 @@ def neg(a):
 
 
 def absval(a):
+    if is_fp(a):
+        return z3.fpAbs(a)
     v = val_of(a)
     if not is_z3(v):
         return mk(abs(pyfloat(v)), nan_of(a))
@@ -228,8 +236,59 @@ def minval(a, b):
     return mk(z3.If(va <= vb, va, vb), or_nan(nan_of(a), nan_of(b)))
 
 
+FP64 = z3.Float64()
+RNE = z3.RNE()
+
+
+def is_fp(x):
+    return is_z3(x) and z3.is_fp(x)
+
+
+def to_fp(x):
+    if is_fp(x):
+        return x
+    if isinstance(x, bool):
+        return z3.FPVal(1.0 if x else 0.0, FP64)
+    if isinstance(x, (int, Fraction)):
+        return z3.FPVal(float(x), FP64)
+    if isinstance(x, float):
+        return z3.FPVal(x, FP64)
+    if is_z3(x) and z3.is_int(x):
+        return z3.fpToFP(RNE, z3.ToReal(x), FP64)
+    if is_z3(x) and z3.is_real(x):
+        return z3.fpToFP(RNE, x, FP64)
+    raise Unsupported("cannot convert %r to float64" % (x,))
+
+
+def fp_compare(op, a, b):
+    a, b = to_fp(a), to_fp(b)
+    if op == "==":
+        return z3.fpEQ(a, b)
+    if op == "!=":
+        return z3.Not(z3.fpEQ(a, b))
+    return {"<": z3.fpLT, "<=": z3.fpLEQ, ">": z3.fpGT, ">=": z3.fpGEQ}[op](a, b)
+
+
+_fp_mul = z3.Function("fp64_mul", FP64, FP64, FP64)
+_fp_div = z3.Function("fp64_div", FP64, FP64, FP64)
+
+
+def fp_arith(op, a, b):
+    """float64 + and - are exact IEEE (round to nearest even); * and / are uninterpreted
+    (a sound over-approximation: the obligations of the Newton driver only compare results, and
+    the bit-precise multiplier / divider circuits dominate the solving time otherwise)"""
+    a, b = to_fp(a), to_fp(b)
+    if op == "*":
+        return _fp_mul(a, b)
+    if op == "/":
+        return _fp_div(a, b)
+    return {"+": z3.fpAdd, "-": z3.fpSub}[op](RNE, a, b)
+
+
 def compare(op, a, b):
     """IEEE-style: any comparison with NaN is False except != which is True."""
+    if is_fp(a) or is_fp(b):
+        return fp_compare(op, a, b)
     nan = or_nan(nan_of(a), nan_of(b))
     va, vb = val_of(a), val_of(b)
     if isinstance(va, float):
@@ -323,6 +382,8 @@ def ite(c, a, b):
         return z3.If(c, B(va), B(vb))
     if is_z3(va) and is_z3(vb) and va.sort() == vb.sort() and not z3.is_arith(va):
         return z3.If(c, va, vb)
+    if is_fp(va) or is_fp(vb):
+        return z3.If(c, to_fp(va), to_fp(vb))
     if _is_intlike(va) and _is_intlike(vb):
         t = z3.If(c, I(va), I(vb))
     else:
